@@ -766,7 +766,8 @@ def _lib_module(pre, ret, twice, never, mainblock, init, effect_attr, second=Fal
     """Source of one library module.  pre = '' for the module form, '<mod>_' for the merged form."""
     P = lambda n: pre + n
     # 'limit' is assigned once, to a constant, at module level (a candidate for constant propagation); unused code assigns it too
-    s = f"{P('count')} = {init}\n{P('limit')} = 50\n"
+    # module-level code has an externally visible effect: the order in which the libraries are initialised is observable
+    s = f"{P('count')} = {init}\n{P('limit')} = 50\ndb.Volume = {ord(effect_attr[0])}\n"
     body = f"global {P('count')}\n{P('count')} = {P('count')} + k\nif {P('count')} < {P('limit')}:\n    db.{effect_attr} = {P('count')}\n" + (f"return {P('count')} * 2 + k\n" if ret else "")
     s += fdef(P("bump"), ["k"], body)
     if twice:
@@ -808,14 +809,21 @@ def lib(tier="quick"):
                                 init_a = "d1.Setting" if init_dev else "0"
                                 mods[ma] = _lib_module("", ret, twice, never, mainblock, init_a, "On", second)
                                 rmods[ma] = (mods[ma], bind_a)
-                                merged += _lib_module(ma + "_", ret, twice, never, False, init_a, "On", second)
+                                merged_a = _lib_module(ma + "_", ret, twice, never, False, init_a, "On", second)
+                                merged += merged_a
                                 imp = f"from library import {ma}" + (f" as {bind_a}" if alias_a else "") + "\n"
+                                swap = nmods == 2 and bool(flags & 2)  # second library imported first (non-alphabetical import order)
                                 if nmods == 2:
                                     # second module: same global / function names as the first one (collision dimension is about main)
                                     mods[mb] = _lib_module("", ret, False, False, mainblock, "10", "Mode")
                                     rmods[mb] = (mods[mb], bind_b)
-                                    merged += _lib_module(mb + "_", ret, False, False, False, "10", "Mode")
-                                    imp += f"from library import {mb}\n"
+                                    merged_b = _lib_module(mb + "_", ret, False, False, False, "10", "Mode")
+                                    merged += merged_b
+                                    imp = (f"from library import {mb}\n" + imp) if swap else (imp + f"from library import {mb}\n")
+                                    if swap:
+                                        # the merged single file and the reference run the libraries in import order
+                                        merged = merged_b + merged_a
+                                        rmods = {mb: rmods[mb], ma: rmods[ma]}
                                 gname = "count" if collide else "mine"
                                 fname = "bump" if collide else "local"
                                 mainfn = f"{gname} = 100\n" + fdef(fname, ["q"], f"global {gname}\n{gname} = {gname} + q\ndb.Lock = {gname}\n")
@@ -1122,4 +1130,92 @@ def latestore(tier="quick"):
             src = "def step(a):\n" + ind(body) + "while True:\n    step(d1.Setting)\n    step(2)\n    yield_()\n"
             out.append(mk("LATESTORE", n, src, tag=f"{k}/{bn}", V=[0, 1, 2], K=10, T=2, cap=81))
             n += 1
+    return out
+
+
+# ----------------------------------------------------------------------------
+# CTRL3: while loops with compound tests, break / continue at several nesting positions, nested while loops -- C01, C05
+
+def ctrl3(tier="quick"):
+    out = []
+    n = 0
+    tests = ["k < 3", "k < 3 and x != k", "k < 3 or (k < 5 and y > 1)", "not k >= 3", "k < y", "x > 0 and y < 2 and k < 3", "(x > 1) == (y > 1) and k < 3", "k != 3"]
+    bodies = {
+        "plain": "db.On = k\n",
+        "break-if": "if k == x:\n    break\ndb.On = k\n",
+        "break-else": "if k != x:\n    db.On = k\nelse:\n    break\n",
+        "continue-if": "if k == x:\n    k += 1\n    continue\ndb.On = k\n",
+        "break-continue": "if k == x:\n    k += 2\n    continue\nif k == y:\n    break\ndb.On = k\n",
+        "nested-if-break": "if k > 0:\n    if k == x:\n        break\n    db.Mode = k\ndb.On = k\n",
+        "inner-while": "j = 0\nwhile j < 2:\n    if j == x:\n        break\n    db.Mode = k * 10 + j\n    j += 1\ndb.On = k\n",
+        "inner-while-continue": "j = 0\nwhile j < 3:\n    j += 1\n    if j == y:\n        continue\n    db.Mode = k * 10 + j\nif k == x:\n    break\n",
+        "inner-break-outer-continue": "j = 0\nwhile True:\n    j += 1\n    if j > x:\n        break\nif j == 2:\n    k += 1\n    continue\ndb.On = j\n",
+        "for-inside": "for q in range(2):\n    if q == x:\n        db.Mode = q\n    db.Lock = k + q\nif k == y:\n    break\n",
+    }
+    for ti, t in enumerate(tests):
+        for bn, b in bodies.items():
+            if tier == "quick" and (ti + len(bn)) % 2 and bn not in ("break-continue", "inner-break-outer-continue"):
+                continue
+            for ctx in ("main", "func"):
+                loop = f"k = 0\nwhile {t}:\n" + ind(b + "k += 1\n") + "db.Setting = k\n"
+                if ctx == "main":
+                    src = "x = d0.Setting\ny = d2.Setting\n" + loop
+                else:
+                    src = "def work(x, y):\n" + ind(loop + "return k\n") + "while True:\n    db.Open = work(d0.Setting, d2.Setting)\n    db.Open = work(1, 2)\n    yield_()\n"
+                out.append(mk("CTRL3", n, src, tag=f"{ti}/{bn}/{ctx}", V=[0, 1, 2, 3], K=14, T=2, cap=128, variants=[{}, {"remove_labels": True}, {"inline_functions": False}]))
+                n += 1
+    return out
+
+
+
+# ----------------------------------------------------------------------------
+# WRAP: statements that span several source lines (parenthesised / argument lists) -- C04, C01
+# (lifetimes are source-line intervals: a temporary computed on a later line of the same statement must not reuse the register
+# of an operand read on an earlier line)
+
+def wrap(tier="quick"):
+    srcs = [
+        "def bill(fee, rate, hours):\n    total = (\n        fee\n        + rate * hours\n    )\n    db.On = total\n    return total\nwhile True:\n    db.Setting = bill(d0.Setting, d1.Setting, 3)\n    db.Mode = bill(2, 3, d0.Setting)\n    yield_()\n",
+        "def f(a, b, c):\n    x = a + 1\n    y = b + 2\n    r = (\n        x\n        * y\n        + (a\n           - c) * (b\n                   + c)\n    )\n    return r\nwhile True:\n    db.Setting = f(d0.Setting, d1.Setting, 2)\n    db.Mode = f(1, 2, 3)\n    yield_()\n",
+        "def g(a, b):\n    db.Setting = max(\n        a * 2,\n        b + 1,\n    ) + min(\n        a,\n        b * 3,\n    )\nwhile True:\n    g(d0.Setting, d1.Setting)\n    g(2, 1)\n    yield_()\n",
+        "def h(a, b):\n    t = a * 3\n    if (t > b\n            and a + b > 2\n            and t - b < 7):\n        db.On = t\n    db.Setting = (t\n                  + b)\nwhile True:\n    h(d0.Setting, d1.Setting)\n    h(1, 1)\n    yield_()\n",
+        "def show(u, v, w):\n    db.Mode = u * 100 + v * 10 + w\ndef k(a, b):\n    m = a + b\n    show(\n        m,\n        a * 2,\n        b - 1,\n    )\n    db.Setting = m\nwhile True:\n    k(d0.Setting, d1.Setting)\n    k(1, 2)\n    yield_()\n",
+        "x = d0.Setting\ny = d1.Setting\nz = (\n    x\n    + y * 2\n)\ndb.Setting = (z\n              - x)\n",
+        "def p(a):\n    arr = [\n        10,\n        20,\n        30,\n    ]\n    v = arr[\n        a\n    ] + a * (\n        a + 1)\n    return v\nwhile True:\n    db.Setting = p(d0.Setting)\n    db.On = p(1)\n    yield_()\n",
+        "def q(a, b):\n    total = 0\n    for i in range(\n            a,\n            a + b,\n    ):\n        total = (total\n                 + i * (a\n                        + 1))\n    return total\nwhile True:\n    db.Setting = q(d0.Setting, 2)\n    db.On = q(1, d1.Setting)\n    yield_()\n",
+    ]
+    out = []
+    for i, sx in enumerate(srcs):
+        out.append(mk("WRAP", i, sx, V=[0, 1, 2, 3], K=12, T=2, cap=128, variants=[{}, {"inline_functions": False}, {"inline_functions": False, "use_push_pop_functions": True}]))
+    return out
+
+
+# ----------------------------------------------------------------------------
+# EMIT: @emit_code functions (raw IC10 lines, including comment-only and blank lines) followed by jumps -- C05
+
+def emit(tier="quick"):
+    raws = {
+        "instr": '["move r15 7", "s db Mode r15"]',
+        "comment": '["# a note", "move r15 7", "s db Mode r15"]',
+        "blank": '["move r15 7", "", "s db Mode r15"]',
+        "both": '["# first", "", "move r15 7", "# second", "s db Mode r15", ""]',
+    }
+    tails = {
+        "if": "if x > 1:\n    db.On = 1\nelse:\n    db.On = 2\ndb.Setting = x\n",
+        "while": "k = 0\nwhile k < 2:\n    db.Lock = k\n    k += 1\ndb.Setting = x\n",
+        "func": "db.Setting = calc(x)\ndb.On = calc(2)\n",
+    }
+    out = []
+    n = 0
+    for rn, raw in raws.items():
+        for tn, tail in tails.items():
+            for pos in ("before", "inside"):
+                fdefs = "@emit_code\ndef raw():\n    return " + raw + "\n" + ("def calc(v):\n    if v > 2:\n        return v\n    return v + 10\n" if tn == "func" else "")
+                if pos == "before":
+                    body = "x = d0.Setting\nraw()\n" + tail
+                else:
+                    body = "x = d0.Setting\nif x > 0:\n    raw()\n" + tail
+                src = fdefs + "while True:\n" + ind(body + "yield_()\n")
+                out.append(mk("EMIT", n, src, ref_src=None, tag=f"{rn}/{tn}/{pos}", V=[0, 1, 2, 3], K=10, T=2, cap=32))
+                n += 1
     return out
